@@ -53,8 +53,9 @@ static uint64_t g_points = 0;
 static std::vector<char*> g_free_stacks;
 static char g_err[256];
 static bool g_has_err = false;
-static uint64_t g_edge_a = 0, g_edge_b = 0;
+static uint64_t g_edge_budget = 0; // fine profile: preempt the running fiber after this many basic-block edges (0 = off)
 static uint64_t g_edges = 0;
+static uint64_t g_edge_preempts = 0;
 int (*choose_waiter)(int n) = nullptr;
 
 // AddressSanitizer intercepts swapcontext and clears the shadow of a whole stack on every call
@@ -206,8 +207,9 @@ reset()
     g_now = 1000000000ull; // 1 s: clocks never read 0
     g_points = 0;
     g_has_err = false;
-    g_edge_a = g_edge_b = 0;
+    g_edge_budget = 0;
     g_edges = 0;
+    g_edge_preempts = 0;
     choose_waiter = nullptr;
 }
 
@@ -328,6 +330,35 @@ sched_point(Op op, const void* obj)
     yield_to_main();
 }
 
+} // namespace vsim
+#ifndef VSIM_NO_EDGE_HOOK
+// Fine profile (DESIGN.md 2.4): sources compiled with -fsanitize-coverage=trace-pc-guard call this on
+// every basic-block edge.  When the director armed a budget for the fiber it is stepping, the
+// fiber is preempted after that many edges -- between any two statements of the code under
+// test, not only at lock/condition/clock calls -- so unlocked check-then-act sequences and plain
+// shared flags see other threads in between.
+extern "C" void
+__sanitizer_cov_trace_pc_guard_init(uint32_t* start, uint32_t* stop)
+{
+    for (uint32_t* p = start; p < stop; ++p)
+        if (!*p)
+            *p = 1;
+}
+extern "C" void
+__sanitizer_cov_trace_pc_guard(uint32_t*)
+{
+    using namespace vsim;
+    if (g_cur < 0 || !g_edge_budget)
+        return;
+    ++g_edges;
+    if (--g_edge_budget == 0) {
+        ++g_edge_preempts;
+        sched_point(OP_EDGE, nullptr);
+    }
+}
+#endif
+namespace vsim {
+
 void
 point(int tag)
 {
@@ -370,15 +401,19 @@ state_name(State s)
 }
 
 void
-set_edge_preempt(uint64_t a, uint64_t b)
+set_edge_budget(uint64_t k)
 {
-    g_edge_a = a;
-    g_edge_b = b;
+    g_edge_budget = k;
 }
 uint64_t
 edges()
 {
     return g_edges;
+}
+uint64_t
+edge_preemptions()
+{
+    return g_edge_preempts;
 }
 
 // ---- mutex representation: first 4 bytes of pthread_mutex_t = owner (0 free, 1 main, f+2 fiber f)
